@@ -21,7 +21,17 @@ type AtomicValue[T any] struct {
 //
 // Using nil as the new value will result in panic.
 func (v *AtomicValue[T]) CompareAndSwap(old, new T) (swapped bool) {
-	return v.atom.CompareAndSwap(old, new)
+	for {
+		if v.atom.CompareAndSwap(old, new) {
+			return true
+		}
+		// atomic.Value compares by value but swaps by box identity, so it also
+		// fails when a concurrent Store replaced the current value with an equal
+		// one. Only report failure if the current value really differs from old.
+		if x := v.atom.Load(); x == nil || x != any(old) {
+			return false
+		}
+	}
 }
 
 // Load returns the value set by the most recent call to Store, or the zero value
